@@ -19,15 +19,7 @@ Theorem C04_order_independent :
       run_suite rk verdict_suite Forked cap n2 = Finished v2 p2 ->
       In (ETestDone (tid t) d1 cl1) (out p1) -> In (ETestDone (tid t) d2 cl2) (out p2) ->
       d1 = own s t /\ d2 = own s t /\ cl1 = cl2.
-Proof.
-  intros rk cap n1 n2 s t d1 cl1 d2 cl2 Hrk Hcap Hs1 Hok1 Hu1 Hin1 Hs2 Hok2 Hu2 Hin2 p1 p2 v1 v2 H1 H2 E1 E2.
-  destruct (run_suite_spec rk verdict_suite Forked cap n1 (builtin_rk_folds rk Hrk) Hcap Hs1 Hok1) as (f1 & R1).
-  destruct (run_suite_spec rk verdict_suite Forked cap n2 (builtin_rk_folds rk Hrk) Hcap Hs2 Hok2) as (f2 & R2).
-  rewrite R1 in H1. rewrite R2 in H2. inversion H1; subst. inversion H2; subst. cbn [out] in *.
-  apply (credited_exactly_own n1 [] czero s t d1 cl1 Hs1 Hu1 Hin1) in E1.
-  apply (credited_exactly_own n2 [] czero s t d2 cl2 Hs2 Hu2 Hin2) in E2.
-  destruct E1 as [-> ->], E2 as [-> ->]. auto.
-Qed.
+Proof. exact order_independent. Qed.
 Print Assumptions C04_order_independent.
 
 Theorem C04_example_premises_hold : ok_tree Forked 4096 ex_tree /\ is_suite ex_tree /\ unique_names ex_tree.
